@@ -422,17 +422,31 @@ class AtomicSaver:
                 do_chmod = False  # respect the umask
 
         fd = os.open(self.part_path, self.open_flags, file_perms)
-        set_cloexec(fd)
-        self.part_file = os.fdopen(fd, self.mode, self.buffering)
+        try:
+            set_cloexec(fd)
+            self.part_file = os.fdopen(fd, self.mode, self.buffering)
 
-        # if default perms are overridden by the user or previous dest_path
-        # chmod away the effects of the umask
-        if do_chmod:
-            try:
+            # if default perms are overridden by the user or previous dest_path
+            # chmod away the effects of the umask
+            if do_chmod:
                 os.chmod(self.part_path, file_perms)
-            except OSError:
-                self.part_file.close()
-                raise
+        except Exception:
+            # the part file was created above, do not leave it (or its
+            # descriptor) behind
+            try:
+                if self.part_file:
+                    self.part_file.close()
+                else:
+                    os.close(fd)
+            except Exception:
+                pass  # avoid masking original error
+            self.part_file = None
+            if self.rm_part_on_exc:
+                try:
+                    os.unlink(self.part_path)
+                except Exception:
+                    pass  # avoid masking original error
+            raise
         return
 
     def setup(self):
